@@ -512,6 +512,129 @@ fn cfg_near(r: &mut Rng, eps: &[Ep]) -> String {
     s
 }
 
+
+// ---- Ethernet <-> NULL/loopback ambiguity (generator side only) ----
+/// a well-formed Ethernet header whose first four bytes are a NULL/loopback header candidate `hdr`, whose byte 4 is `b4`
+/// (version / IHL nibbles of an IP header at offset 4) and whose byte 10 (source MAC octet 4 = the IPv6 next-header byte
+/// of that reading) is `b10`.  Bytes 12..13 = EtherType = the IPv4 "ttl, protocol" bytes of the loopback reading.
+fn eth_null_alias(hdr: [u8; 4], b4: u8, b10: u8, ethertype: u16, inner: &[u8]) -> Vec<u8> {
+    let mut f = vec![hdr[0], hdr[1], hdr[2], hdr[3], b4, 0x01, 0x02, 0x11, 0x22, 0x33, b10, 0x55];
+    f.extend_from_slice(&ethertype.to_be_bytes());
+    f.extend_from_slice(inner);
+    f
+}
+/// every reading of a frame: Ethernet, raw IP and IP at offset 4 (whatever the family word says), without duplicates
+fn readings_all(f: &[u8]) -> Vec<Ep> {
+    let mut v = readings(f);
+    if f.len() > 4 { v.extend(reading_v4(&f[4..])); v.extend(reading_v6(&f[4..])); }
+    let mut out: Vec<Ep> = Vec::new();
+    for e in v { if !out.contains(&e) { out.push(e); } }
+    out
+}
+/// one-constant filters on each reading's own values: each admits (rejects) one reading and, when the readings differ
+/// in that field, rejects (admits) the others
+fn aimed_cfgs(eps: &[Ep]) -> Vec<String> {
+    let mut cfgs = Vec::new();
+    for e in eps {
+        cfgs.push(format!("A P d:{} E", e.3));
+        cfgs.push(format!("D N n:{}/{} do E", show_ip(&e.1), if e.1.is_ipv6() { 64 } else { 24 }));
+        cfgs.push(format!("D P s:{} E", e.2));
+        cfgs.push(format!("A I a:{} so E", show_ip(&e.0)));
+    }
+    if cfgs.is_empty() { cfgs.push("A P d:443 E".into()); cfgs.push("D N n:4:0a000000/8 E".into()); }
+    cfgs
+}
+const NULL_ALIAS_HDRS: &[[u8; 4]] = &[[0x1e, 0, 0, 0], [0x1e, 0, 0x5e, 0], [0x02, 0, 0, 0], [0x1c, 0, 0, 0], [0x18, 0, 0, 0],
+    [0, 0, 0, 0x02], [0, 0, 0, 0x1e], [0, 0, 0, 0x1c], [0x1e, 1, 0, 0]];
+fn fixed_conn(k: usize, v6: bool) -> Conn {
+    let k8 = k as u8;
+    let mut c6 = [0u8; 16]; c6[0] = 0x20; c6[1] = 0x01; c6[2] = 0x0d; c6[3] = 0xb8; c6[15] = 3;
+    let mut s6 = c6; s6[15] = 4;
+    Conn { v6, c4: [10, 0, k8 % 3, 3], s4: [10, 0, 0, 4], c6, s6, cp: 40001 + (k as u16 % 7), sp: [443u16, 80, 8080][k % 3],
+           isn_c: 0x1000_0000 + k as u32, isn_s: 0x2000_0000 + k as u32 }
+}
+
+fn gen_null_alias(tier: &Tier, out: &mut Vec<String>) {
+    let mut amb: Vec<Vec<u8>> = Vec::new();
+    // (A) well-formed Ethernet / IPv4|IPv6 / TCP frames whose header also reads as a loopback header followed by an IP header
+    let mut k = 0usize;
+    for hdr in NULL_ALIAS_HDRS { for b4 in [0x60u8, 0x6f, 0x45, 0x46, 0x4f, 0x40, 0x00] { for b10 in [6u8, 0, 17] { for v6 in [false, true] {
+        if b10 == 17 && b4 != 0x60 { continue; }
+        k += 1;
+        let c = fixed_conn(k, v6);
+        let kinds: &[u8] = if b4 == 0x60 && b10 == 6 { &[0, 5, 1] } else { &[0] };
+        for &kind in kinds {
+            let from_client = kind != 1;
+            let f = eth_null_alias(*hdr, b4, b10, if v6 { 0x86dd } else { 0x0800 }, &c.ip(from_client, &c.seg(from_client, kind), 0, None));
+            if b4 == 0x60 && b10 == 6 && kind == 0 && !v6 { for n in [47usize, 48, 53, 54] { amb.push(f[..n.min(f.len())].to_vec()); } }
+            amb.push(f);
+        }
+    }}}}
+    // the same headers with an EtherType that is not IP but whose low byte is 6 = "protocol TCP" of the loopback IPv4 reading
+    // (ARP 0806, 8106), and a VLAN tag (8100): no Ethernet reading, the other readings must be tried in the analyzer's order
+    for hdr in NULL_ALIAS_HDRS { for b4 in [0x45u8, 0x4f, 0x60, 0x40] { for et in [0x0806u16, 0x8106, 0x8100, 0x0006] {
+        let mut body = vec![0u8; 72];
+        for (j, b) in body.iter_mut().enumerate() { *b = (j as u8).wrapping_mul(11).wrapping_add(hdr[0]) | 1; }
+        if et == 0x8100 { body[2] = 0x08; body[3] = 0x00; body[4] = 0x45; body[13] = 6; }
+        amb.push(eth_null_alias(*hdr, b4, 6, et, &body));
+    }}}
+    // (B) loopback frames whose bytes 12..13 read as an EtherType (0800 / 86dd / 8100) and whose bytes from 14 on pass the
+    //     quick TCP tests of that reading (IPv4: byte 23 = 6, IPv6: byte 20 = 6)
+    for hdr in [[0x1eu8, 0, 0, 0], [0x02, 0, 0, 0], [0x1c, 0, 0, 0], [0x18, 0, 0, 0], [0x1e, 0, 0xbe, 0xef], [0, 0, 0, 0x1e]] {
+        for (e0, e1) in [(0x08u8, 0x00u8), (0x86, 0xdd), (0x81, 0x00)] {
+            for (inner_nibble, six_at) in [(0x45u8, 11usize), (0x45, 15), (0x60, 8), (0x46, 11), (0x60, 15)] {
+                // loopback + IPv6: source address bytes 0..1 = EtherType, byte 2 = first byte of the Ethernet reading's IP header
+                let mut a = [0u8; 16]; a[0] = e0; a[1] = e1; a[2] = inner_nibble; a[15] = 9; a[six_at] = 6;
+                let mut b = [0u8; 16]; b[0] = 0x20; b[1] = 0x01; b[15] = 2;
+                amb.push(null(hdr, &V6::new(a, b).build(&tcp_segment(12345, 443, 3, 0, SYN, 1024, &[], &[7u8; 24]))));
+            }
+            // loopback + IPv4: ttl, protocol = EtherType (not TCP: only the Ethernet reading can be TCP), and ttl = e0 with TCP
+            for proto in [e1, 6] { for dst3 in [6u8, 2] {
+                let mut h = V4::new([0x45, 0, 0, 60], [10, 0, 0, dst3]); h.ttl = e0; h.proto = proto;
+                amb.push(null(hdr, &h.build(&tcp_segment(12345, 80, 9, 0, SYN, 2048, &[], &[6u8; 40]))));
+            }}
+        }
+    }
+    // raw IPv4 / IPv6 packets whose bytes 12..13 read 81 00 (VLAN tag: neither decoder follows it)
+    for extra in [0usize, 24] {
+        amb.push(V4::new([0x81, 0, 0x08, 0], [0x45, 0, 0, 6]).build(&tcp_segment(12345, 80, 9, 0, SYN, 2048, &[], &vec![6u8; extra])));
+        let mut a = [0u8; 16]; a[0] = 0x20; a[1] = 0x01; a[4] = 0x81; a[5] = 0; a[6] = 0x08; a[7] = 0; a[8] = 0x45; a[15] = 6;
+        let mut b = [0u8; 16]; b[0] = 0x20; b[15] = 2;
+        amb.push(V6::new(a, b).build(&tcp_segment(12345, 443, 3, 0, SYN, 1024, &[], &vec![1u8; extra])));
+    }
+    for (n, f) in amb.iter().enumerate() {
+        let cfgs = aimed_cfgs(&readings_all(f));
+        let keep = tier.scale(3, 12).min(cfgs.len());
+        // quick tier: rotate through the list so that every kind of constant and every reading is used across the family
+        for j in 0..keep { let i = if keep == cfgs.len() { j } else { (n + j * 3) % cfgs.len() }; out.push(format!("{} F {}", cfgs[i], hex(f))); }
+    }
+    // traces: a connection on ordinary Ethernet framing and one whose frames also read as loopback / IPv6, through every analyzer
+    let kinds = ["tcp", "http", "tls", "uni", "ptcp", "phttp", "ptls"];
+    let mut t = 0usize;
+    for which in kinds { for hdr in [[0x1eu8, 0, 0, 0], [0x1e, 0, 0x5e, 0], [0x1c, 0, 0, 0]] { for v6 in [false, true] {
+        if v6 && hdr[2] != 0 { continue; }
+        t += 1;
+        let (ca, cb) = (fixed_conn(t, v6), fixed_conn(t + 1, v6));
+        let plan: &[(bool, u8)] = match which {
+            "tcp" | "ptcp" => &[(true, 0), (false, 1), (true, 2)],
+            "http" | "phttp" => &[(true, 0), (false, 1), (true, 2), (true, 3), (false, 4)],
+            "tls" | "ptls" => &[(true, 0), (false, 1), (true, 5)],
+            _ => if t % 2 == 0 { &[(true, 0), (false, 1), (true, 3), (false, 4)] } else { &[(true, 0), (false, 1), (true, 5)] },
+        };
+        let et = if v6 { 0x86dd } else { 0x0800 };
+        let mut frames: Vec<Vec<u8>> = Vec::new();
+        for &(fc, kd) in plan {
+            frames.push(eth(et, &ca.ip(fc, &ca.seg(fc, kd), 0, None)));
+            frames.push(eth_null_alias(hdr, 0x60, 6, et, &cb.ip(fc, &cb.seg(fc, kd), 0, None)));
+        }
+        let mis = readings_all(&frames[frames.len() - 1]);
+        let mut cfgs = vec![format!("A P d:{} E", cb.sp), format!("D P s:{} E", ca.cp), format!("A I a:{} E", show_ip(&cb.ep(true).0))];
+        if let Some(e) = mis.last() { cfgs.push(format!("D P d:{} E", e.3)); cfgs.push(format!("A N n:{}/16 so E", show_ip(&e.0))); }
+        let keep = tier.scale(2, 5).min(cfgs.len());
+        for j in 0..keep { out.push(format!("{} T {} {}", cfgs[(t + j * 2) % cfgs.len()], which, frames.iter().map(|f| hex(f)).collect::<Vec<_>>().join(" "))); }
+    }}}
+}
+
 fn gen(r: &mut Rng, tier: &Tier, out: &mut Vec<String>) {
     // ---- F stream 1: connection packets, every framing, honest and lying IHL ----
     let n1 = tier.scale(500, 12000);
@@ -616,6 +739,8 @@ fn gen(r: &mut Rng, tier: &Tier, out: &mut Vec<String>) {
         let keep = tier.scale(4, 9);
         for k in 0..cfgs.len().min(keep) { let i = if cfgs.len() <= keep { k } else { (k * 3 + f.len()) % cfgs.len() }; out.push(format!("{} F {}", cfgs[i], hex(f))); }
     }
+    // ---- F stream 2c + T: frames decodable both as Ethernet and as loopback (fixed corpus, every seed) ----
+    gen_null_alias(tier, out);
     // ---- F stream 3: malformed: every truncation and single-bit flips of a few valid frames ----
     let c = Conn::gen(r);
     for fr in [Framing::Eth, Framing::Raw, Framing::Null([0x1e, 0, 0, 0]), Framing::Null([2, 0, 0, 0])] {
